@@ -81,6 +81,35 @@ example : retryLoop .do_ {} [.nothing, .release, .nothing] =
 /-- and an undisturbed loop does retry -/
 example : (retryLoop .do_ {} [.nothing, .nothing]).2 = ([.wDo, .wDo, .wDo], .ok) := by decide
 
+/-! ### the cluster client's dedicated client -/
+
+/-- **released_cluster_client_rejects_every_method.** A released or closed cluster dedicated client —
+    also one that had already acquired its wire, which it keeps a pointer to — leaves the wire
+    alone in every method: Do / DoMulti / Receive / SetPubSubHooks / SetOnInvalidations answer
+    ErrDedicatedClientRecycled, Close and the release func do nothing, and the only call that may
+    still reach the wire is the read of its hooks by SetOnInvalidations. -/
+theorem released_cluster_client_rejects_every_method (st : CSt) (hm : st.mark = true) (op : Op) :
+    (cstep st op).1 = st ∧ (∀ c ∈ (cstep st op).2.1, c.mutates = false) ∧
+    ((cstep st op).2.2 = .recycled ∨ ((op = .release ∨ op = .close) ∧ (cstep st op).2.2 = .void) ∨
+      (op = .doMulti 0 ∧ (cstep st op).2.2 = .nilEmpty)) := by
+  cases op with
+  | doMulti n =>
+    by_cases hn : n = 0
+    · subst hn; simp [cstep]
+    · simp [cstep, cacquire, hm, hn]
+  | setInv on => cases hw : st.hasWire <;> simp [cstep, csetHooks, hm, hw, Call.mutates]
+  | _ => simp [cstep, cacquire, crelease, csetHooks, hm]
+
+/-- releasing hands a wire back only if one was acquired, through `mux.Store`'s sequence -/
+theorem cluster_release_stores (st : CSt) (hm : st.mark = false) :
+    (cstep st .release).2.1 = (if st.hasWire then storeSeq st.hooks else []) ∧ (cstep st .release).1.mark = true := by
+  simp [cstep, crelease, hm]
+
+/-- hooks set before the first command are installed when the wire is acquired -/
+example : (cstep (cstep {} (.setHooks { msg := true })).1 .do_).2.1 = [.wSetHooks { msg := true }, .wDo] := by decide
+/-- the seeded scenario: a used, released handle that calls SetPubSubHooks touches nothing -/
+example : (cstep (cstep (cstep {} .do_).1 .release).1 (.setHooks { msg := true })).2 = ([], .recycled) := by decide
+
 /-- release and Close both recycle the client -/
 theorem release_marks (st : St) : (step st .release).1.mark = true ∧ (step st .close).1.mark = true := by
   cases hm : st.mark <;> simp [step, release, hm]
